@@ -255,6 +255,8 @@ def _init():
 
 
 def run(ctx):
+    from .. import xfeat
+    xfeat.sweep(ctx, "C09")      # cross-feature compositions (pv/xfeat.py)
     progs = blocks.programs(1 if ctx.thorough else 0)
     random.Random(ctx.seed).shuffle(progs)
     nchunks = common.NCPU * 6
@@ -284,6 +286,9 @@ def run(ctx):
 
 
 def replay(case):
+    if isinstance(case, dict) and case.get("xfeat"):
+        from .. import xfeat
+        return xfeat.replay(case, "C09")
     H.bind(case["p"])
 
     def tup(x):
